@@ -173,6 +173,13 @@ class Model:
         # renamed parameters of non-public functions get their pinned names
         self.aliases.params = normalise.canon_params(
             {k: v[2] for k, v in parsed.items()}, self.aliases)
+        # tables keyed by True/False are the conditional they stand for;
+        # locals that only name an attribute chain or a bound method are
+        # replaced by what they name
+        self.aliases.tables = normalise.bool_tables(
+            {k: v[2] for k, v in parsed.items()})
+        self.aliases.locals_inlined = normalise.inline_aliases(
+            {k: v[2] for k, v in parsed.items()})
         # non-public functions whose signature changed are treated as new
         # helpers (inlined below, the pinned body looked for afterwards)
         self.aliases.resigned = normalise.demote_changed(
